@@ -70,6 +70,7 @@ def normalize_node(n):
     n.setdefault("fail_args", [])
     n.setdefault("dec_args", [])
     n.setdefault("pure", False)
+    n.setdefault("mayfail", False)        # HGSteps: TLC may inject a failure at any invocation of this node
     n.setdefault("pause_at", [])
     n.setdefault("fn", "term")
     n.setdefault("cache", False)
